@@ -679,6 +679,9 @@ class Model:
             if not self.rejecting:
                 m = self.sc.matcher(self.start, bolv)
                 matches, examined, hit_end = m.scan(bytes(b.held))
+                if examined == 0 and len(b.held) > 0:
+                    # no user rule is active here, but the default rule still has to see one character
+                    examined = 1
                 self.tok_bol = bolv
                 alts = []
                 for total, rules in matches:
